@@ -2,9 +2,13 @@
    the documented constraint grammar is Model/Accept.v (after Model/Expand.v); it is diffed on every run against
    the real acceptance (cold cache) of grammar schemas and single-point corruptions; the entry points' order
    "expand, validate, commit" is read from the source (fact group F17, fail-closed).  Proved: rejection keeps the
-   state, the entry points decide alike, each corruption kind is rejected at the rules set that holds it and a
-   rejected field rejects the schema.  Not proved: that the grammar rejects a corruption at EVERY depth (induction
-   over positions) -- checked by the corruption oracle at random positions of any depth. *)
+   state, the entry points decide alike, each corruption kind is rejected at the rules set that holds it, a rejected
+   rules set rejects every rules set holding it at a recursion position of the grammar (items members, keysrules,
+   valuesrules, *of definitions, allow_unknown rules sets, list- and dict-schemas), hence -- by induction on the
+   nesting -- a corruption at ANY depth of the inline structure rejects the schema.  Not proved: positions reached
+   through registry references (the model follows them with a cycle guard; the real code's guard conflates seen with
+   valid: the recorded finding accepted:dangling-reference), and that the real meta-schema IS this grammar (that is
+   the differential run). *)
 From Coq Require Import List ZArith String Bool.
 From Cerb Require Import Values PyOps Expand Accept AcceptProofs.
 Import ListNotations.
@@ -60,3 +64,37 @@ Example C04_example :
   accepts base_class [] [] (deep (KStr "nosuchrule", VInt 1)) = false /\
   accepts base_class [] [] (deep (KStr "required", VStr "yes")) = false.
 Proof. vm_compute. repeat split; reflexivity. Qed.
+
+(* rejection at every depth: the closure of "holds a rejected rules set at a recursion position" is rejected *)
+Theorem C04_corrupted_is_rejected : forall K rr sr io seen v,
+  corrupted K rr sr io seen v -> forall fuel, wf_rules K rr sr fuel io seen v = false.
+Proof. exact corrupted_is_rejected. Qed.
+Print Assumptions C04_corrupted_is_rejected.
+
+Theorem C04_corruption_at_any_depth_rejects : forall K rr sr schema field d,
+  In (field, VDict d) schema -> corrupted K rr sr false [] (VDict d) -> accepts K rr sr schema = false.
+Proof. exact corruption_at_any_depth_rejects. Qed.
+Print Assumptions C04_corruption_at_any_depth_rejects.
+
+(* the base kinds *)
+Theorem C04_base_kinds : forall K rr sr,
+  (forall io seen d rule c, In (KStr rule, c) d -> sin rule (k_validation_rules K) = false -> sin rule (k_normalization_rules K) = false ->
+                            bad K rr sr io seen (VDict d)) /\
+  (forall io seen d t, In (KStr "type", VStr t) d -> sin t (k_types K) = false -> bad K rr sr io seen (VDict d)) /\
+  (forall seen d rule c, In (KStr rule, c) d -> sin rule (k_validation_rules K) = false -> bad K rr sr true seen (VDict d)).
+Proof. intros K rr sr. split; [|split]; [apply unknown_rule_bad|apply unknown_type_bad|apply normalization_rule_in_of_bad]. Qed.
+
+(* non-vacuity: the unknown rule three levels down (list-schema -> valuesrules -> anyof definition) is a corruption
+   in the sense of the theorem *)
+Example C04_depth_example :
+  let leaf := [(KStr "nosuchrule", VInt 1)] in
+  let vr := [(KStr "anyof", VList [VDict leaf])] in
+  let ls := [(KStr "type", VStr "dict"); (KStr "valuesrules", VDict vr)] in
+  let a := [(KStr "type", VStr "list"); (KStr "schema", VDict ls)] in
+  corrupted base_class [] [] false [] (VDict a).
+Proof.
+  cbv zeta. eapply c_list_schema; [right; left; reflexivity| |intro f; reflexivity].
+  eapply c_bulk; [right; reflexivity|right; left; reflexivity|].
+  eapply c_of; [right; left; reflexivity|left; reflexivity|left; reflexivity|].
+  apply c_here. eapply unknown_rule_bad; [left; reflexivity|reflexivity|reflexivity].
+Qed.
